@@ -350,7 +350,7 @@ func (gen *generator) irGlobal(new *ir.Global, old *ast.GlobalDecl) error {
 	if oldFuncAttrs := old.FuncAttrs(); len(oldFuncAttrs) > 0 {
 		new.FuncAttrs = make([]ir.FuncAttribute, len(oldFuncAttrs))
 		for i, oldFuncAttr := range oldFuncAttrs {
-			funcAttr := gen.irFuncAttribute(oldFuncAttr)
+			funcAttr := gen.irFuncAttributeOutsideGroup(oldFuncAttr)
 			new.FuncAttrs[i] = funcAttr
 		}
 	}
@@ -616,7 +616,7 @@ func (gen *generator) irFuncHeader(new *ir.Func, old ast.FuncHeader) error {
 		switch funcHdrField := funcHdrField.(type) {
 		// (optional) Function attributes.
 		case ast.FuncAttribute:
-			funcAttr := gen.irFuncAttribute(funcHdrField)
+			funcAttr := gen.irFuncAttributeOutsideGroup(funcHdrField)
 			new.FuncAttrs = append(new.FuncAttrs, funcAttr)
 		// (optional) Alignment.
 		case *ast.Align:
